@@ -7,7 +7,7 @@ def nontrivial(se):
 
 
 def run(res):
-    brokercheck.run(res, "C14", ["Props/C14.v", "Props/C14_history.v"], monitors.monitor_c14, nontrivial=nontrivial)
+    brokercheck.run(res, "C14", ["Props/C14.v", "Props/C14_history.v"], monitors.monitor_c14, nontrivial=nontrivial, focus="split")
 
 
 def replay(path):
